@@ -5,6 +5,9 @@
 //  * the obligations on the stream list itself (S6, S9a, S10 parts, P12 twins).
 
 use super::*;
+// explicit imports: the contracts must not depend on which names the parent module happens to import
+use std::cell::Cell;
+use std::ptr;
 use crate::verif_hooks::*;
 
 
